@@ -59,6 +59,10 @@ func writerJobs(scribble int64) (quick, thorough []*Job) {
 			}
 		}
 	}
+	bv := "a two-part vector whose total is 65536 / 65537 bytes on a non-blocking queue with exactly one free slot (manual executor), Writev and CtxWritev: accepted whole or refused without contributing a byte"
+	for _, c := range [][]int64{{1, 1, 0}, {2, 1, 1}, {2, 3, 2}, {1, 1, 3}, {1, 3, 1}} {
+		quick = append(quick, &Job{Pkg: "", Func: "ZZ_C01_BigVector", Args: c, Bounds: bv})
+	}
 	bs := "single writer, payload sizes {0,1,1023,1024,1025,2048,65536,65537} with symbolic contents through each entry point, followed by a 2-byte write through the next entry point"
 	for e := int64(0); e < 8; e++ {
 		for si := int64(0); si < 8; si++ {
